@@ -1,7 +1,308 @@
-use crate::ops::RunDesc;
-pub fn gen(prop: &str, seed: u64) -> RunDesc {
-    crate::gen::gen_interp_run(prop, "todo", seed, crate::gen::Profile::Ebr)
+//! LIST-TRAV (C18): the participant registry's lock-free list (through the shim) under
+//! concurrent inserts, logical deletes and traversals; oracle over the recorded history.
+
+use std::collections::BTreeMap;
+use std::sync::Arc;
+
+use circ::verif::{VElemRef, VList};
+
+use crate::gen::swarm_cfg;
+use crate::json::J;
+use crate::ops::*;
+use crate::rng::Rng;
+use crate::sched::{self, sim, user_yield, Monitor, Outcome, ThreadSpec, Violation};
+
+#[derive(Clone, Debug)]
+enum LEv {
+    Ins { id: u64, inv: u64, ret: u64 },
+    Del { id: u64, inv: u64, ret: u64 },
+    Trav { tid: usize, inv: u64, ret: u64, visited: Vec<u64>, stalls: usize, stop: bool },
 }
-pub fn run(_desc: &RunDesc) -> ! {
-    unimplemented!()
+
+static mut LHIST: Vec<LEv> = Vec::new();
+static mut FINALIZED: Vec<(u64, u64)> = Vec::new(); // (id, seq)
+static mut SOFT: Vec<(String, String)> = Vec::new();
+
+struct LMon;
+impl Monitor for LMon {
+    #[allow(static_mut_refs)]
+    fn event(&mut self, _tid: usize, kind: u32, a: usize, _b: usize, _c: usize) {
+        if kind == circ::verif::kind::LIST_FINALIZE {
+            unsafe { FINALIZED.push((a as u64, sim().seq)) };
+        }
+    }
+    fn use_after_free(&mut self, _tid: usize, site: u32, addr: usize) -> (String, String) {
+        ("C18".into(), format!("list entry at {:#x} accessed after it was freed ({})", addr, sched::site_name(site)))
+    }
+}
+
+pub fn gen(prop: &str, seed: u64) -> RunDesc {
+    let mut rng = Rng::new(seed);
+    let mut cfg = RunCfg::default();
+    let nt = 2 + rng.below(4) as usize;
+    swarm_cfg(&mut rng, &mut cfg, nt, true);
+    if cfg.strategy == 2 {
+        cfg.hot_mask = (1 << 8) | if rng.chance(0.5) { 1 << 9 } else { 0 };
+    }
+    cfg.buggify_p = if rng.chance(0.4) { 0.3 } else { 0.0 };
+    let mut threads = Vec::new();
+    for _ in 0..nt {
+        let n = 3 + rng.below(10) as usize;
+        let mut ops = Vec::new();
+        let mut inserted = 0u32;
+        let mut deleted: Vec<u32> = Vec::new();
+        let hold = rng.chance(0.3);
+        if hold {
+            ops.push(op(K::Pin, 0, 0, 0, 0));
+        }
+        for _ in 0..n {
+            match rng.below(10) {
+                0..=3 => {
+                    ops.push(op(K::LIns, inserted, 0, 0, 0));
+                    inserted += 1;
+                }
+                4..=6 => {
+                    let cand: Vec<u32> = (0..inserted).filter(|i| !deleted.contains(i)).collect();
+                    if !cand.is_empty() {
+                        let e = cand[rng.below(cand.len() as u64) as usize];
+                        deleted.push(e);
+                        ops.push(op(K::LDel, e, 0, 0, 0));
+                    }
+                }
+                _ => ops.push(op(K::LTrav, rng.chance(0.6) as u32, 0, 0, 0)),
+            }
+        }
+        if hold {
+            ops.push(op(K::Unpin, 0, 0, 0, 0));
+        }
+        let mut t = ThreadProg::new(0, ops);
+        t.name = "list".into();
+        threads.push(t);
+    }
+    if rng.chance(0.3) {
+        let mut t = ThreadProg::new(0, crate::gen::ticker_ops(2 + rng.below(6) as usize));
+        t.name = "ticker".into();
+        threads.push(t);
+    }
+    if let Some(s) = cfg.stall.as_mut() {
+        s.victim = rng.below(nt as u64) as u32;
+    }
+    RunDesc { prop: prop.to_string(), family: "list".into(), seed, cfg, threads, params: J::Null, schedule: None, buggify_script: None }
+}
+
+#[allow(static_mut_refs)]
+fn body(tid: usize, l: &'static VList, prog: &ThreadProg) {
+    let mut guard: Option<circ::Guard> = None;
+    let mut elems: BTreeMap<u32, (VElemRef, bool)> = BTreeMap::new();
+    for (i, o) in prog.ops.iter().enumerate() {
+        sched::set_op(i as u32);
+        user_yield();
+        match o.k {
+            K::Pin => {
+                if guard.is_none() {
+                    guard = Some(circ::cs());
+                }
+            }
+            K::Unpin => guard = None,
+            K::Flush => {
+                if let Some(g) = &guard {
+                    g.flush();
+                }
+            }
+            K::LIns | K::LDel | K::LTrav => {
+                let tmp;
+                let g = match &guard {
+                    Some(g) => g,
+                    None => {
+                        tmp = circ::cs();
+                        &tmp
+                    }
+                };
+                let inv = sim().seq;
+                match o.k {
+                    K::LIns => {
+                        if elems.contains_key(&o.a) {
+                            continue;
+                        }
+                        let id = ((tid as u64) << 16) | o.a as u64;
+                        let r = l.insert(id as usize, g);
+                        elems.insert(o.a, (r, false));
+                        unsafe { LHIST.push(LEv::Ins { id, inv, ret: sim().seq }) };
+                    }
+                    K::LDel => {
+                        if let Some((r, del)) = elems.get_mut(&o.a) {
+                            if !*del {
+                                *del = true;
+                                let id = ((tid as u64) << 16) | o.a as u64;
+                                unsafe { l.delete(*r, g) };
+                                unsafe { LHIST.push(LEv::Del { id, inv, ret: sim().seq }) };
+                            }
+                        }
+                    }
+                    _ => {
+                        let t = l.traverse(o.a != 0, g);
+                        unsafe { LHIST.push(LEv::Trav { tid, inv, ret: sim().seq, visited: t.visited.iter().map(|&x| x as u64).collect(), stalls: t.stalls, stop: o.a != 0 }) };
+                    }
+                }
+            }
+            _ => {}
+        }
+    }
+    sched::set_op(prog.ops.len() as u32);
+    // like a participant at thread exit: delete what is still registered
+    for (a, (r, del)) in elems.iter_mut() {
+        if !*del {
+            user_yield();
+            let g = circ::cs();
+            let inv = sim().seq;
+            let id = ((tid as u64) << 16) | *a as u64;
+            unsafe { l.delete(*r, &g) };
+            unsafe { LHIST.push(LEv::Del { id, inv, ret: sim().seq }) };
+            *del = true;
+        }
+    }
+    drop(guard);
+}
+
+#[allow(static_mut_refs)]
+fn soft(sig: &str, det: String) {
+    unsafe {
+        if !SOFT.iter().any(|s| s.0 == sig) {
+            SOFT.push((sig.to_string(), det));
+        }
+    }
+}
+
+fn name(id: u64) -> String {
+    format!("t{}.e{}", id >> 16, id & 0xFFFF)
+}
+
+#[allow(static_mut_refs)]
+pub fn run(desc: &RunDesc) -> ! {
+    crate::runner::init_library(&desc.cfg);
+    let l: &'static VList = Box::leak(Box::new(VList::new()));
+    let progs: Arc<Vec<ThreadProg>> = Arc::new(desc.threads.clone());
+    let mut specs = Vec::new();
+    for (i, t) in desc.threads.iter().enumerate() {
+        let progs = progs.clone();
+        specs.push(ThreadSpec { phase: t.phase, stack: 1 << 20, name: "l", body: Arc::new(move |tid| body(tid, l, &progs[i])) });
+    }
+    let n = desc.threads.len();
+    specs.push(ThreadSpec {
+        phase: 9,
+        stack: 1 << 20,
+        name: "final-traversal",
+        body: Arc::new(move |tid| {
+            // a final solo traversal unlinks every deleted entry
+            for k in 0..3 {
+                sched::set_op(k);
+                let g = circ::cs();
+                let inv = sim().seq;
+                let t = l.traverse(false, &g);
+                unsafe { LHIST.push(LEv::Trav { tid, inv, ret: sim().seq, visited: t.visited.iter().map(|&x| x as u64).collect(), stalls: t.stalls, stop: false }) };
+                drop(g);
+            }
+            for _ in 0..8 {
+                let g = circ::cs();
+                g.flush();
+                drop(g);
+            }
+        }),
+    });
+    let sc = crate::runner::sim_config(desc, n + 1);
+    sched::run(sc, Box::new(LMon), specs, Some(crate::runner::clock));
+    // ---- oracle over the recorded history ----
+    let hist: Vec<LEv> = unsafe { LHIST.clone() };
+    let fin: Vec<(u64, u64)> = unsafe { FINALIZED.clone() };
+    let mut ins: BTreeMap<u64, (u64, u64)> = BTreeMap::new();
+    let mut del: BTreeMap<u64, (u64, u64)> = BTreeMap::new();
+    for e in &hist {
+        match e {
+            LEv::Ins { id, inv, ret } => {
+                ins.insert(*id, (*inv, *ret));
+            }
+            LEv::Del { id, inv, ret } => {
+                del.insert(*id, (*inv, *ret));
+            }
+            _ => {}
+        }
+    }
+    let mut fin_seq: BTreeMap<u64, u64> = BTreeMap::new();
+    for (id, s) in &fin {
+        if fin_seq.contains_key(id) {
+            soft("finalized-twice", format!("entry {} was unlinked and finalized twice (seq {} and {})", name(*id), fin_seq[id], s));
+        }
+        fin_seq.entry(*id).or_insert(*s);
+        match del.get(id) {
+            Some((dinv, _)) if dinv <= s => {}
+            _ => soft("finalized-undeleted", format!("entry {} was finalized at seq {} without having been deleted", name(*id), s)),
+        }
+    }
+    let mut complete_traversals = 0u64;
+    let mut stalled_traversals = 0u64;
+    let mut overlapping = 0u64;
+    for e in &hist {
+        if let LEv::Trav { tid, inv, ret, visited, stalls, stop } = e {
+            if *stalls == 0 {
+                complete_traversals += 1;
+                for (id, (_, iret)) in &ins {
+                    let live_throughout = iret < inv && del.get(id).map(|(dinv, _)| dinv > ret).unwrap_or(true);
+                    if live_throughout && !visited.contains(id) {
+                        soft(
+                            "traversal-missed-element",
+                            format!("traversal by t{} [{}..{}] reported no stall but did not visit {} (inserted by seq {}, not deleted before the traversal ended); visited {:?}", tid, inv, ret, name(*id), iret, visited.iter().map(|x| name(*x)).collect::<Vec<_>>()),
+                        );
+                    }
+                }
+                let mut v = visited.clone();
+                v.sort();
+                if v.windows(2).any(|w| w[0] == w[1]) {
+                    soft("visited-twice-without-stall", format!("traversal by t{} [{}..{}] visited an entry twice without a stall", tid, inv, ret));
+                }
+            } else {
+                stalled_traversals += 1;
+                if *stop && *stalls > 1 {
+                    soft("harness", "stop_on_stall traversal reported several stalls".into());
+                }
+            }
+            if ins.values().any(|(i, r)| i <= ret && r >= inv) || del.values().any(|(i, r)| i <= ret && r >= inv) {
+                overlapping += 1;
+            }
+            for id in visited {
+                match ins.get(id) {
+                    None => soft("visited-unknown-element", format!("traversal by t{} visited {:#x} which was never inserted (freed memory?)", tid, id)),
+                    Some((iinv, _)) if iinv > ret => soft("visited-before-insert", format!("traversal by t{} [{}..{}] visited {} inserted later", tid, inv, ret, name(*id))),
+                    _ => {}
+                }
+                if let Some(f) = fin_seq.get(id) {
+                    if f < inv {
+                        soft("visited-after-finalize", format!("traversal by t{} [{}..{}] visited {} which was unlinked and finalized at seq {}", tid, inv, ret, name(*id), f));
+                    }
+                }
+            }
+        }
+    }
+    // after the final solo traversals every deleted entry has been finalized exactly once
+    for id in del.keys() {
+        if !fin_seq.contains_key(id) {
+            soft("deleted-never-finalized", format!("entry {} was deleted but never unlinked/finalized, even by the final solo traversals", name(*id)));
+        }
+    }
+    let df = crate::alloc::DOUBLE_FREE.load(std::sync::atomic::Ordering::SeqCst);
+    if df != 0 {
+        soft("double-free", format!("block at {:#x} was freed twice", df));
+    }
+    if desc.cfg.quarantine {
+        if let Some(a) = crate::alloc::verify_poison() {
+            soft("write-after-free", format!("freed memory at {:#x} was written after it was freed", a));
+        }
+    }
+    crate::runner::set_extra("fam", J::obj().set("list_inserts", ins.len()).set("list_deletes", del.len()).set("complete_traversals", complete_traversals).set("stalled_traversals", stalled_traversals).set("traversals_overlapping_updates", overlapping).set("finalized", fin.len()));
+    let softs = unsafe { SOFT.clone() };
+    crate::runner::set_extra("soft", J::Arr(softs.iter().map(|(s, d)| J::obj().set("prop", "C18").set("props", J::Arr(vec![J::Str("C18".into())])).set("signature", format!("C18/{}", s)).set("detail", d.as_str()).set("seq", 0)).collect()));
+    let outcome = match softs.first() {
+        Some((s, d)) => Outcome::Violation(Violation { prop: "C18".into(), kind: "soft".into(), signature: format!("C18/{}", s), detail: d.clone(), seq: sim().seq }),
+        None => Outcome::Ok,
+    };
+    sim().finish(outcome)
 }
